@@ -216,12 +216,24 @@ def add_inheritance(rng, forest, both_prob=0.0):
     chains = []
     cus = [u for u in forest.units if u.root.tag == DW_TAG["compile_unit"]]
     for u in cus:
+        # base types of both signednesses: the value of a DW_AT_const_value in a data form depends on the type of the
+        # DIE it is read through, so a value integrated along a chain shows WHICH DIE's context was used
+        bases = [Die("base_type", [("name", "string", nm), ("byte_size", "data1", sz), ("encoding", "data1", enc)])
+                 for nm, sz, enc in rng.sample([(b"sc", 1, 6), (b"uc", 1, 8), (b"si", 4, 5), (b"ui", 4, 7), (b"ss", 2, 5), (b"us", 2, 7)], rng.randint(2, 4))]
+        for b in bases:
+            u.root.children.insert(rng.randint(0, len(u.root.children)), b)
         for _ in range(rng.randint(1, 4)):
             n = rng.randint(0, 4)
             dies = []
+            typed = rng.random() < 0.5
             for k in range(n + 1):
                 last = (k == n)
                 attrs = rand_inh_attrs(rng, u.version, with_name=(last or rng.random() < 0.3))
+                if typed and rng.random() < 0.5:
+                    attrs.insert(rng.randint(0, len(attrs)), ("type", "ref4", rng.choice(bases)))
+                if typed and rng.random() < 0.35:
+                    f = rng.choice(["data1", "data2"])
+                    attrs.insert(rng.randint(0, len(attrs)), ("const_value", f, rng.randint(0x80, 0xff) if f == "data1" else rng.randint(0x8000, 0xffff)))
                 if last and rng.random() < 0.7:
                     attrs.append(("declaration", "flag_present" if u.version >= 4 else "flag", None if u.version >= 4 else True))
                 dies.append(Die("subprogram" if k else rng.choice(["subprogram", "inlined_subroutine", "variable"]), attrs))
